@@ -81,6 +81,7 @@ class Ctx(object):
     def violation(self, mech, what, witness=None, repro=None):
         """A monitor fired.  mech = mechanism key (reference-side facts)."""
         self.nviol += 1
+        self.counters["violation." + mech] += 1
         if len(self.violations) < MAX_VIOL_PER_SHARD or not any(
             v["mech"] == mech for v in self.violations
         ):
@@ -252,6 +253,8 @@ def run_property(prop, tier, seed, jobs=None, only=None):
         print("  unlisted violation mechanism=%s: %s" % (mech, v["what"]))
         print("VIOLATION property=%s replay=%s" % (prop, path))
     if status == "violated":
+        if crashed:
+            print("NOTE: some shards also failed in the harness: " + crashed[0][-800:])
         return 1
     if status == "inconclusive":
         reason = []
